@@ -10,6 +10,13 @@ ASSUMPTIONS = [
     "-e and a config exclude key are never generated together",
     "interactive mode is driven through piped answers (click.confirm); prompts are read from the captured output",
     "the exhaustive node-level stream calls the private helper _find_all_unknown_paths and is skipped if it disappears",
+    "'anything matching an exclude pattern' includes the contents of a matching directory that is reached from a given path "
+    "(category below-excluded-dir; Lean: C11_below_excluded); a path given explicitly inside an excluded directory is cleaned",
+    "F16 decision: the files a DirectoryNode declared by a collected task resolves to ARE 'declared dependencies or products' "
+    "(pytask turns them into path nodes before execution); the `dirnode` stream is labelled and its only-dirnode hits are the "
+    "known finding F16, everything else in that stream is judged like the cli stream",
+    "a run whose dry-run succeeds and whose second run fails is still judged on the dry-run listing; removals of a failing run "
+    "are only bounded from above (nothing outside the listing)",
 ]
 
 
